@@ -1,12 +1,12 @@
 CONSTANTS
-  N = 3
-  L = 2
+  N = 2
+  L = 1
   Cap = 2
   HasHead = TRUE
   Manual = FALSE
   HasPay = FALSE
-  HasPlans = TRUE
-  HasSerial = TRUE
+  HasPlans = FALSE
+  HasSerial = FALSE
   HasHist = TRUE
   HasLog = FALSE
   Verbose = FALSE
@@ -14,8 +14,8 @@ CONSTANTS
   DefMask <- AllDef
   MaxActs = 1
   WithMonitors = TRUE
-  EnvOps <- SmokeOps
-  EnvActs <- SmokeActs
+  EnvOps <- TinyOps
+  EnvActs <- TinyActs
   EnvPoints <- AllPoints
 INIT Init
 NEXT Next
